@@ -59,7 +59,7 @@ where
             Ok(desc) => bad(format!("cancel.swallowed.{}", calls[k].0), format!("{label}: cancel at callback {k} ({:?}) -> Ok: {desc}", calls[k]), counts),
         }
     }
-    println!("VERIF-B-SAMPLE {label}: {total} callbacks in a full run, phases {:?}", calls.iter().map(|c| c.0.clone()).collect::<std::collections::BTreeSet<_>>());
+    println!("VERIF-B-SAMPLE {label}: {total} callbacks in a full run ({}), phases {:?}", full.as_deref().unwrap_or("?"), calls.iter().map(|c| c.0.clone()).collect::<std::collections::BTreeSet<_>>());
     (evals, total)
 }
 
@@ -82,6 +82,50 @@ fn c23_cancel_at_every_callback() {
         evals += e;
         nontrivial += n;
     }
+    // a box-hash bound asset: sign with prefer_box_hash, then read it back with a cancel at every callback
+    if let Ok(bytes) = std::fs::read(crate::utils::test::fixture_path("IMG_0003.jpg")) {
+        let signed: std::result::Result<Vec<u8>, Error> = (|| {
+            let ctx = crate::utils::test::test_context().with_settings(r#"{"core": {"prefer_compress_manifests": true}}"#)?.into_shared();
+            let mut b = crate::Builder::from_shared_context(&ctx).with_definition(r#"{"title":"t","assertions":[]}"#)?;
+            b.set_intent(crate::BuilderIntent::Create(crate::DigitalSourceType::Empty));
+            let mut src = std::io::Cursor::new(bytes.clone());
+            let mut dst = std::io::Cursor::new(Vec::new());
+            b.save_to_stream("image/jpeg", &mut src, &mut dst)?;
+            Ok(dst.into_inner())
+        })();
+        match signed {
+            Ok(asset) => {
+                let (e, n) = c23_sweep(
+                    "read box-hash signed IMG_0003.jpg",
+                    |ctx| {
+                        let r = Reader::from_context(ctx).with_stream("image/jpeg", std::io::Cursor::new(asset.clone()))?;
+                        let bound_by_boxes = r.json().contains("c2pa.hash.boxes");
+                        Ok(format!("state {:?} box_hash={bound_by_boxes}", r.validation_state()))
+                    },
+                    &mut counts,
+                );
+                evals += e;
+                nontrivial += n;
+                // signing with a box hash incl. verify-after-sign
+                let (e, n) = c23_sweep(
+                    "sign IMG_0003.jpg with box hash",
+                    |ctx| {
+                        let shared = ctx.with_settings(r#"{"core": {"prefer_compress_manifests": true}}"#)?.into_shared();
+                        let mut b = crate::Builder::from_shared_context(&shared).with_definition(r#"{"title":"t","assertions":[]}"#)?;
+                        b.set_intent(crate::BuilderIntent::Create(crate::DigitalSourceType::Empty));
+                        let mut src = std::io::Cursor::new(bytes.clone());
+                        let mut dst = std::io::Cursor::new(Vec::new());
+                        b.save_to_stream("image/jpeg", &mut src, &mut dst)?;
+                        Ok(format!("signed {} bytes", dst.get_ref().len()))
+                    },
+                    &mut counts,
+                );
+                evals += e;
+                nontrivial += n;
+            }
+            Err(e) => println!("VERIF-B-SAMPLE box-hash signing set-up failed: {e}"),
+        }
+    }
     // signing (embedded, data hash) incl. verify-after-sign
     for (file, mime) in [("IMG_0003.jpg", "image/jpeg"), ("libpng-test.png", "image/png"), ("video1_no_manifest.mp4", "video/mp4")] {
         let Ok(bytes) = std::fs::read(crate::utils::test::fixture_path(file)) else { continue };
@@ -101,5 +145,5 @@ fn c23_cancel_at_every_callback() {
         nontrivial += n;
     }
     println!("VERIF-B-SAMPLE violation classes this run: {:?}", counts);
-    println!("VERIF-B unit=reader test=c23_cancel_at_every_callback evaluations={evals} nontrivial={nontrivial} exhaustive=true domain=every callback index k of a full run x {{read CA.jpg, C.jpg, video1.mp4, sample1.gif, exp-test1.png; sign IMG_0003.jpg, libpng-test.png, video1_no_manifest.mp4}}");
+    println!("VERIF-B unit=reader test=c23_cancel_at_every_callback evaluations={evals} nontrivial={nontrivial} exhaustive=true domain=every callback index k of a full run x {{read CA.jpg, C.jpg, video1.mp4, sample1.gif, exp-test1.png; sign IMG_0003.jpg, libpng-test.png, video1_no_manifest.mp4; read and sign IMG_0003.jpg with a box hash}}");
 }
